@@ -54,7 +54,11 @@ func checkC20(c *Case, s *Stats) error {
 	vals := c.typedValues()
 	valsBefore := deepCopyValues(vals)
 	opt := c.Opt.opt()
-	optSlice := []trie.Opt{opt}
+	// a slice with SPARE CAPACITY: the element after the passed ones is caller memory too
+	sentinel := trie.Opt{DedupValue: trie.Bool(false), InnerPrefix: trie.Bool(true), LeafPrefix: trie.Bool(false), Complete: trie.Bool(false)}
+	backing := []trie.Opt{opt, sentinel, sentinel}
+	sentinelPtrs := [4]*bool{sentinel.DedupValue, sentinel.InnerPrefix, sentinel.LeafPrefix, sentinel.Complete}
+	optSlice := backing[:1]
 	ptrs := [4]*bool{opt.DedupValue, opt.InnerPrefix, opt.LeafPrefix, opt.Complete}
 	var pointees [4]bool
 	for i, p := range ptrs {
@@ -82,6 +86,15 @@ func checkC20(c *Case, s *Stats) error {
 			return viol("opt-modified", "NewSlimTrie changed the length of the caller's option slice")
 		}
 		opt = optSlice[0]
+		for bi := 1; bi < len(backing); bi++ {
+			got := [4]*bool{backing[bi].DedupValue, backing[bi].InnerPrefix, backing[bi].LeafPrefix, backing[bi].Complete}
+			if got != sentinelPtrs {
+				return viol("opt-modified", "NewSlimTrie(..., opts[:1]...) overwrote element %d of the caller's option array (beyond the passed slice)", bi)
+			}
+		}
+		if *sentinelPtrs[0] || !*sentinelPtrs[1] || *sentinelPtrs[2] || *sentinelPtrs[3] {
+			return viol("opt-modified", "NewSlimTrie changed option values behind pointers of the caller's option array")
+		}
 	}
 	if !reflect.DeepEqual(keys, keysBefore) {
 		return viol("keys-modified", "NewSlimTrie modified the caller's key slice")
